@@ -81,7 +81,10 @@ private theorem step_inv (c : Cfg) (hp : 0 < c.period) (u : U) (e : Ev) (hq : Qu
           · intro a ha; simp at ha; rcases ha with rfl | rfl <;> simp [hard]
       | draining =>
         simp only [step, onReq, hph]
-        exact ⟨⟨hrun, hhot, hterm⟩, Nat.le_refl _, by simp⟩
+        refine ⟨⟨?_, ?_, ?_⟩, Nat.le_refl _, by simp [hard]⟩
+        · intro h; simp [hph] at h
+        · intro h; obtain ⟨k, hk, hle⟩ := hhot h; exact ⟨k, hk, hle⟩
+        · intro w hw; simp [hph] at hw
       | delay =>
         simp only [step, onReq, hph]
         split
@@ -114,7 +117,10 @@ private theorem step_inv (c : Cfg) (hp : 0 < c.period) (u : U) (e : Ev) (hq : Qu
         · intro a ha; simp at ha; subst ha; simp [hard]
       | draining =>
         simp only [step, onReq, hph]
-        exact ⟨⟨hrun, hhot, hterm⟩, Nat.le_refl _, by simp⟩
+        refine ⟨⟨?_, ?_, ?_⟩, Nat.le_refl _, by simp [hard]⟩
+        · intro h; simp [hph] at h
+        · intro h; obtain ⟨k, hk, hle⟩ := hhot h; exact ⟨k, hk, hle⟩
+        · intro w hw; simp [hph] at hw
       | delay =>
         simp only [step, onReq, hph]
         split
@@ -206,17 +212,26 @@ private theorem step_inv (c : Cfg) (hp : 0 < c.period) (u : U) (e : Ev) (hq : Qu
       simp only [advance, nextDue, hph]
       have hm := (tick_w u.sw dt).1
       have hm2 := (tick_w u.sw u.ls).1
-      split
-      · simp only [elapse, hph]
+      by_cases hlp : u.lsPaused = true
+      · -- the leak timer is paused (nextest is stopped): nothing fires
+        simp only [hlp, if_true, elapse, hph]
         refine ⟨⟨?_, ?_, ?_⟩, hm, by simp⟩
         · intro h; simp [hph] at h
         · intro h; obtain ⟨k, hk, hle⟩ := hhot h; exact ⟨k, hk, Nat.le_trans hle hm⟩
         · intro w hw; simp [hph] at hw
-      · simp only [elapse, hph, fire]
-        refine ⟨⟨?_, ?_, ?_⟩, hm2, by simp⟩
-        · intro h; simp at h
-        · intro h; obtain ⟨k, hk, hle⟩ := hhot h; exact ⟨k, hk, Nat.le_trans hle hm2⟩
-        · intro w hw; simp at hw
+      · have hlp' : u.lsPaused = false := by simpa using hlp
+        simp only [hlp', Bool.false_eq_true, if_false]
+        split
+        · simp only [elapse, hph]
+          refine ⟨⟨?_, ?_, ?_⟩, hm, by simp⟩
+          · intro h; simp [hph] at h
+          · intro h; obtain ⟨k, hk, hle⟩ := hhot h; exact ⟨k, hk, Nat.le_trans hle hm⟩
+          · intro w hw; simp [hph] at hw
+        · simp only [elapse, hph, fire]
+          refine ⟨⟨?_, ?_, ?_⟩, hm2, by simp⟩
+          · intro h; simp at h
+          · intro h; obtain ⟨k, hk, hle⟩ := hhot h; exact ⟨k, hk, Nat.le_trans hle hm2⟩
+          · intro w hw; simp at hw
     | terminating w =>
       obtain ⟨hw, hto, hsum, hpa⟩ := hterm w hph
       simp only [advance, nextDue, hph, Timer.due]
